@@ -386,6 +386,18 @@ HOSTS += [
     ("estr5", 5, lambda c: ([], EStr("a", c[0], "b", c[1], "c", c[2], "d", c[3], "e", c[4], "f"))),
     ("estr4", 4, lambda c: ([], EStr(c[0], c[1], "-", c[2], c[3]))),
 ]
+# calls that the additional context skips or replaces: the arguments written at the call are still evaluated, once, in order
+_um2 = lambda: Asg("o", Obj(("um", Fn(["x"], [Arr(Id("x"), Id("k"))], kps=[("k", Int(0))], method=True))))
+HOSTS += [
+    ("lonely-nil-args", 3, lambda c: ([_um2()], PCall(Inf("&&", c[0], Nil()), "um", [c[1]], kw=[("k", c[2])], add="&"))),
+    ("lonely-nil-carg", 3, lambda c: ([_um2()], PCall(Inf("&&", c[0], Nil()), "um", [c[2]], add="&", carg=c[1]))),
+    ("lonely-value-args", 3, lambda c: ([_um2()], PCall(Inf("&&", c[0], Id("o")), "um", [c[1]], kw=[("k", c[2])], add="&"))),
+    ("thoughtful-failing-args", 3, lambda c: ([_um2()], PCall(Inf("&&", c[0], Id("o")), "nosuchprop", [c[1]], kw=[("k", c[2])], add="~"))),
+    ("lonely-list-nil-args", 3, lambda c: ([_um2()], PCall(Arr(Nil(), Inf("&&", c[0], Id("o")), Nil()), "um", [c[1]], kw=[("k", c[2])], main="@", add="&"))),
+    ("lonely-list-allnil-args", 2, lambda c: ([_um2()], PCall(Arr(Nil(), Nil()), "um", [c[0]], kw=[("k", c[1])], main="@", add="&"))),
+    ("list-empty-args", 2, lambda c: ([_um2()], PCall(Arr(), "um", [c[0]], kw=[("k", c[1])], main="@"))),
+    ("reduce-empty-args", 3, lambda c: ([_um2()], PCall(Arr(), "um", [c[1]], kw=[("k", c[2])], main="$", carg=c[0]))),
+]
 # the same chain hosts over receivers that are not plain arrays (their elements are 1, 2, 3 as well)
 for _rt, _rv in (("range", lambda: Range(Int(1), Int(4), Nil())), ("int", lambda: Int(3)), ("view", lambda: View(Arr(Int(9)), Arr(Int(1), Int(2), Int(3)))),
                  ("range-step", lambda: Range(Int(1), Int(6), Int(2)))):
@@ -592,6 +604,22 @@ def c04_family(thorough):
                 progs.append((key + ":prop", [Say(PCall(recv, "+", [], main="$", add=add, carg=carg))]))
                 progs.append((key + ":lit", [Say(LCall(recv, rplus, main="$", add=add, carg=carg))]))
                 progs.append((key + ":var", [Asg("g", rplus), Say(VCall(recv, "g", main="$", add=add, carg=carg))]))
+    # receivers whose iterator reports each element it hands out: element k + 1 is produced after call k, in every form and context
+    um = Fn(["x"], [PCall(Id("x"), "um", [])])
+    for pat in ("vv", "vnv", "vrv", "v0v"):
+        recv = View(Arr(), Arr(*[ELEM[c](i + 1) for i, c in enumerate(pat)]), noisy=True)
+        for add in adds["@"]:
+            key = f"list:{add}@:noisy-{pat}:-:um"
+            progs.append((key + ":prop", C04_PRELUDE + [Say(PCall(recv, "um", [], main="@", add=add)), Say(Str("after"))]))
+            progs.append((key + ":lit", C04_PRELUDE + [Say(LCall(recv, um, main="@", add=add)), Say(Str("after"))]))
+            progs.append((key + ":var", C04_PRELUDE + [Asg("g", um), Say(VCall(recv, "g", main="@", add=add)), Say(Str("after"))]))
+    for pat in ((1, 2), (1, 0, 2), (1, -1, 2), (3,)):
+        recv = View(Arr(), Arr(*[Int(x) for x in pat]), noisy=True)
+        for add in adds["$"]:
+            key = f"reduce:{add}$:noisy-{','.join(map(str, pat))}:acc0:ustep"
+            progs.append((key + ":prop", C04_PRELUDE + [Say(PCall(recv, "ustep", [], main="$", add=add, carg=Id("acc0"))), Say(Str("after"))]))
+            progs.append((key + ":lit", C04_PRELUDE + [Say(LCall(recv, rlit, main="$", add=add, carg=Id("acc0"))), Say(Str("after"))]))
+            progs.append((key + ":var", C04_PRELUDE + [Asg("g", rlit), Say(VCall(recv, "g", main="$", add=add, carg=Id("acc0"))), Say(Str("after"))]))
     o = Obj(("b", Int(1)), ("a", Int(2)))
     progs.append(("list:@:obj:-:len:prop", [Say(PCall(o, "len", [], main="@"))]))
     progs.append(("list:@:obj:-:len:lit", [Say(LCall(o, Fn(["x"], [PCall(Id("x"), "len")]), main="@"))]))
